@@ -39,7 +39,28 @@ use std::{
     task::{Context, Poll},
 };
 
-const MAX_ADDRESSES: usize = 64;
+/// How many addresses one peer's book holds (64 in the pinned tree; the property says "bounded", not a number):
+/// distinct addresses are inserted into a real store until it stops growing.
+fn max_addresses() -> usize {
+    static CAP: std::sync::OnceLock<usize> = std::sync::OnceLock::new();
+    *CAP.get_or_init(|| {
+        let mut store = AddressStore::new();
+        let (mut stored, mut stalled, mut i) = (0usize, 0, 0u32);
+        while stalled < 8 && stored < 100_000 {
+            let a: Multiaddr = format!("/ip4/10.77.{}.{}/tcp/{}", (i >> 8) & 255, i & 255, 20000 + (i % 1000)).parse().unwrap();
+            i += 1;
+            store.insert(AddressRecord::from_raw_multiaddr_with_score(a, 0));
+            let now = store.addresses.len();
+            if now > stored {
+                stored = now;
+                stalled = 0;
+            } else {
+                stalled += 1;
+            }
+        }
+        stored
+    })
+}
 
 // =================================================================================================
 // Part (a): address shapes
@@ -750,8 +771,8 @@ fn store_addr(public: bool, class: u8, i: u32) -> Multiaddr {
 fn prefill(root: Root) -> Vec<(Multiaddr, i32, bool)> {
     let n = match root {
         Root::Empty => 0,
-        Root::Part63 => 63,
-        _ => 64,
+        Root::Part63 => max_addresses().saturating_sub(1),
+        _ => max_addresses(),
     };
     (0..n as u32)
         .map(|i| {
@@ -790,7 +811,7 @@ impl StoreModel {
         if added.iter().any(|a| *a != addr) {
             return Err(Viol::new("store/unknown-address-appeared", format!("inserting new {addr} made {added:?} appear")));
         }
-        let full = pre.len() >= MAX_ADDRESSES;
+        let full = pre.len() >= max_addresses();
         let min = pre.values().min().copied();
         match post.get(addr) {
             Some(eff) => {
@@ -800,7 +821,7 @@ impl StoreModel {
                 }
                 if !full {
                     if !removed.is_empty() {
-                        return Err(Viol::new("store/evicted-below-capacity", format!("store held {} < {MAX_ADDRESSES} addresses, inserting {addr} removed {removed:?}", pre.len())));
+                        return Err(Viol::new("store/evicted-below-capacity", format!("store held {} < {} addresses, inserting {addr} removed {removed:?}", pre.len(), max_addresses())));
                     }
                 } else {
                     let min = min.unwrap();
@@ -829,7 +850,7 @@ impl StoreModel {
                     return Err(Viol::new("store/entry-lost-without-admission", format!("new {addr} (score {s}) was not admitted but {removed:?} disappeared")));
                 }
                 if !full {
-                    return Err(Viol::new("store/new-address-dropped-below-capacity", format!("store held {} < {MAX_ADDRESSES} addresses but new {addr} (score {s}) was not remembered", pre.len())));
+                    return Err(Viol::new("store/new-address-dropped-below-capacity", format!("store held {} < {} addresses but new {addr} (score {s}) was not remembered", pre.len(), max_addresses())));
                 }
                 let min = min.unwrap();
                 if s > min {
@@ -976,7 +997,7 @@ impl Model for StoreModel {
             }
         }
         let post = dump(&sys.store);
-        if post.len() > MAX_ADDRESSES {
+        if post.len() > max_addresses() {
             return Err(Viol::new("store/over-capacity", format!("{} addresses stored after {op:?}", post.len())));
         }
         Self::check_addresses(&sys.store, &post)?;
